@@ -22,7 +22,10 @@ RULE = (
     "with start at 1 and end at n, child levels extend parents, emission order == level order per action (remote children "
     "exempt from 'start before later siblings'), children nested in the parent's lifetime; eliot:destination_failure reports "
     "are ordinary members of the tree. Non-trivial: >= 2 nesting levels and (a fault that hits a start or end message, or "
-    ">= 1 remote hand-off, or >= 3 tasks, or >= 2 workers interleaved inside one action). Distinct = canonical JSON of the case."
+    ">= 1 remote hand-off, or >= 3 tasks, or >= 2 workers interleaved inside one action). Facets shared-action(-enum): 2-3 "
+    "threads log messages, child actions and serialised ids inside ONE action (each through its context()) under schedules "
+    "of eliot/_action.py at source-line and bytecode granularity (generated plans + every single preemption): positions "
+    "unique and contiguous. Distinct = canonical JSON of the case."
 )
 ASSUMPTIONS = [
     "failing field serializers are excluded (the property excludes them)",
